@@ -10,6 +10,7 @@ META = {
         "Static analysis over rustc MIR. Decides three necessary clauses: (1) every name lookup (function / line breakpoints set and removed, symbols, breakpoint places, known files) ranges over all loaded objects (DwarfRegistry::all_dwarf) — only transparent breakpoints are restricted to the main object; "
         "(2) symbols are keyed, matched and reported by their demangled name: the symbol-table key flows from rustc_demangle::demangle, the regex is applied to the key and the reported name is that key; "
         "(3) delimiter agreement: the function index, the namespace split of demangled names, the join in FunctionInfo::full_name and the pub-names pre-filter all use \"::\"; the file index uses the platform path separator and is fed path components; suffix matching compares whole components (Vec::ends_with on interned components) with the last component as the head."
+        " Also: every path-index insert stores under a fresh (head nonce, tail index) key and get() truncates nothing."
     ),
     "not_decided": "the input/output behaviour of the path index over all insert/query sequences, demangling, regex semantics (value-level)",
     "assumptions": [],
